@@ -505,7 +505,8 @@ func (prog Progress) walkTransforming(n datamodel.Node, s selector.Selector, fn 
 
 func contains(interest []datamodel.PathSegment, candidate datamodel.PathSegment) bool {
 	for _, i := range interest {
-		if i == candidate {
+		// (not ==: a selector names a list index as the string "0", the iterator yields the int 0)
+		if i.Equals(candidate) {
 			return true
 		}
 	}
